@@ -2,13 +2,10 @@ package c02
 
 import (
 	"fmt"
-	"math"
-	"sort"
 	"testing"
 
 	"github.com/nspcc-dev/neo-go/pkg/config"
 	"github.com/nspcc-dev/neo-go/pkg/core"
-	"github.com/nspcc-dev/neo-go/pkg/core/state"
 	"github.com/nspcc-dev/neo-go/pkg/core/transaction"
 	"github.com/nspcc-dev/neo-go/pkg/neotest"
 	"github.com/nspcc-dev/neo-go/pkg/util"
@@ -16,91 +13,14 @@ import (
 	"github.com/nspcc-dev/neo-go/verifharness/vlib/vchain"
 )
 
-// tokenAccounts lists every account that has a GAS or NEO account record.
-func tokenAccounts(bc *core.Blockchain) []util.Uint160 {
-	seen := map[util.Uint160]bool{}
-	for _, n := range bc.GetNatives() {
-		if n.Manifest.Name != "GasToken" && n.Manifest.Name != "NeoToken" {
-			continue
-		}
-		bc.SeekStorage(n.ID, []byte{20}, func(k, v []byte) bool {
-			if len(k) == 20 {
-				u, err := util.Uint160DecodeBytesBE(k)
-				if err == nil {
-					seen[u] = true
-				}
-			}
-			return true
-		})
-	}
-	var res []util.Uint160
-	for u := range seen {
-		res = append(res, u)
-	}
-	sort.Slice(res, func(i, j int) bool { return res[i].Less(res[j]) })
-	return res
-}
-
-// transferHistory renders what the node reports about the token history of acc:
-// the NEP-17 transfer log (newest first, as served by the RPC) and the
-// last-updated heights.
-func transferHistory(bc *core.Blockchain, acc util.Uint160) (string, int) {
-	var lines []string
-	err := bc.ForEachNEP17Transfer(acc, math.MaxUint64, func(t *state.NEP17Transfer) (bool, error) {
-		tx := "nil"
-		if t.Tx != (util.Uint256{}) {
-			tx = t.Tx.StringLE()[:12]
-		}
-		lines = append(lines, fmt.Sprintf("asset=%d cp=%s amount=%s block=%d ts=%d tx=%s", t.Asset, t.Counterparty.StringLE()[:10], t.Amount, t.Block, t.Timestamp, tx))
-		return true, nil
-	})
-	if err != nil {
-		lines = append(lines, "error: "+err.Error())
-	}
-	lu, err := bc.GetTokenLastUpdated(acc)
-	if err != nil {
-		lines = append(lines, "last-updated error: "+err.Error())
-	} else {
-		var ids []int
-		for id := range lu {
-			ids = append(ids, int(id))
-		}
-		sort.Ints(ids)
-		for _, id := range ids {
-			lines = append(lines, fmt.Sprintf("last-updated asset=%d height=%d", id, lu[int32(id)]))
-		}
-	}
-	s := ""
-	for _, l := range lines {
-		s += l + "\n"
-	}
-	return s, len(lines)
-}
-
 // compareTransferHistories: what two nodes at the same height report about the
 // token history of every account must be the same. Returns the first
 // difference.
 func compareTransferHistories(run *ev.Run, a, b *core.Blockchain) string {
-	accs := tokenAccounts(b)
-	for _, acc := range accs {
-		ha, na := transferHistory(a, acc)
-		hb, nb := transferHistory(b, acc)
-		run.Obs("transfer_histories_compared", 1)
-		if nb > 129 {
-			run.Obs("transfer_histories_compared_with_more_than_one_log_batch", 1)
-		}
-		if ha != hb {
-			return fmt.Sprintf("account %s: %d entries on the reset node, %d on the fresh one\nreset node:\n%s\nfresh node:\n%s", acc.StringLE(), na, nb, clip(ha), clip(hb))
-		}
-	}
-	return ""
-}
-
-func clip(s string) string {
-	if len(s) > 1500 {
-		return s[:700] + "\n...\n" + s[len(s)-700:]
-	}
-	return s
+	d, n, multi := vchain.DiffTransferHistories(a, b, true)
+	run.Obs("transfer_histories_compared", int64(n))
+	run.Obs("transfer_histories_compared_with_more_than_one_log_batch", int64(multi))
+	return d
 }
 
 // pred returns the account that sorts immediately before acc in the key order
@@ -183,7 +103,7 @@ func longReset(t *testing.T, run *ev.Run, idx int, p *vchain.Producer, proto fun
 // right before every account that already has token records.
 func lateNeighbours(p *vchain.Producer) []*transaction.Transaction {
 	var txs []*transaction.Transaction
-	for _, acc := range tokenAccounts(p.BC) {
+	for _, acc := range vchain.TokenAccounts(p.BC) {
 		txs = append(txs, p.Call("gas-to-neighbour", []neotest.Signer{p.Val}, p.GasH, "transfer", p.Val.ScriptHash(), pred(acc), int64(1), nil))
 	}
 	return txs
